@@ -2626,6 +2626,18 @@ def transform_compressible(items, constants, labels):
             return imm != value
         return inner
 
+    # for compressed forms that have no immediate field: nothing is left to
+    # re-check at encode time, so the value must not depend on a label
+    # (labels may still move after this decision has been made)
+    def ImmEqualsWithoutLabels(value):
+        def inner(i, p, e):
+            try:
+                imm = i.imm.eval(p, constants, i.line)
+            except AssemblerError:
+                return False
+            return imm == value
+        return inner
+
     def ImmDivisibleBy(value):
         def inner(i, p, e):
             imm = i.imm.eval(p, e, i.line)
@@ -2674,7 +2686,7 @@ def transform_compressible(items, constants, labels):
             NameEquals('addi'),
             RegEquals('rd', 0),
             RegEquals('rs1', 0),
-            ImmEquals(0),
+            ImmEqualsWithoutLabels(0),
         ],
         'c.addi': [
             NameEquals('addi'),
@@ -2801,7 +2813,7 @@ def transform_compressible(items, constants, labels):
             NameEquals('jalr'),
             RegEquals('rd', 0),
             RegNotEquals('rs1', 0),
-            ImmEquals(0),
+            ImmEqualsWithoutLabels(0),
         ],
         'c.mv': [
             NameEquals('add'),
@@ -2813,7 +2825,7 @@ def transform_compressible(items, constants, labels):
             NameEquals('addi'),
             RegNotEquals('rd', 0),
             RegNotEquals('rs1', 0),
-            ImmEquals(0),
+            ImmEqualsWithoutLabels(0),
         ],
         'c.ebreak': [
             NameEquals('ebreak'),
@@ -2829,7 +2841,7 @@ def transform_compressible(items, constants, labels):
             NameEquals('jalr'),
             RegEquals('rd', 1),
             RegNotEquals('rs1', 0),
-            ImmEquals(0),
+            ImmEqualsWithoutLabels(0),
         ],
         'c.swsp': [
             NameEquals('sw'),
